@@ -149,7 +149,9 @@ fn gen_push(def: &ProgramDef, rng: &mut Rng, so_far: &[Op], inputs_only: bool) -
    if candidates.is_empty() {
       return None;
    }
-   let ri = *rng.pick(&candidates);
+   // provider-backed (BYODS) programs: mostly feed the relation that feeds the provider, so that
+   // successive runs merge / extend what the provider stored in earlier runs
+   let ri = if def.has_tag("byods-ser") && rng.chance(700) { candidates[0] } else { *rng.pick(&candidates) };
    let rel = &def.rels[ri];
    let known = crate::oracle::reference(def, &facts_of(so_far));
    let existing: Vec<Row> = known.get(rel.name).cloned().unwrap_or_default();
@@ -197,12 +199,14 @@ fn gen_history(seed: u64, index: u64, thorough: bool) -> Case {
    let (gname, mut ops) = gen_input_ops(def, &mut rng);
    ops.insert(0, Op::New { pool: gen_pool_ref(&mut rng, np) });
    ops.push(Op::Run { pool: gen_pool_ref(&mut rng, np) });
-   let extra = if thorough { rng.range(1, 5) } else { rng.range(1, 3) };
-   let shape = rng.below(4);
+   let byods = def.has_tag("byods-ser");
+   let extra = if thorough { rng.range(1, 5) } else if byods { rng.range(2, 4) } else { rng.range(1, 3) };
+   let shape = if byods && rng.chance(600) { 4 } else { rng.below(4) };
    for i in 0..extra {
       let want_push = match shape {
          0 => false,              // run; run; run ...
          1 => i % 2 == 0,         // run; push; run; run; push ...
+         4 => true,               // run; push; run; push; run ...
          _ => rng.chance(500),
       };
       if want_push {
